@@ -734,6 +734,85 @@ static void d_op(const std::vector<std::string> &w, out &o)
     o.fail("unknown op");
 }
 
+
+// ---------------------------------------------------------------------------
+// round 3: the library used BEFORE main() (static-initialisation order): an object with init_priority(101) runs a
+// small scenario from its constructor - manager, two timers, exec, minimal_interval, stimer - into a POD buffer;
+// the op `premain` (after reset C) reports it, the model computes the same scenario
+// ---------------------------------------------------------------------------
+static char PM_BUF[512];
+static size_t PM_LEN = 0;
+static int PM_FIRES = 0;
+static igris::timer<int> *PM_T[2];
+static void pm_put(const char *s) { while (*s && PM_LEN < sizeof PM_BUF - 1) PM_BUF[PM_LEN++] = *s++; }
+static void pm_num(long v) { char t[32]; snprintf(t, sizeof t, "%ld", v); pm_put(t); }
+static void pm_fire(int id)
+{
+    if (PM_FIRES++) pm_put(",");
+    pm_num(id);
+    pm_put(":");
+    pm_num((long)PM_T[id]->finish());
+}
+struct premain_t
+{
+    premain_t()
+    {
+        igris::timer_manager *mgr = new igris::timer_manager;
+        PM_T[0] = new igris::timer<int>(igris::make_delegate(pm_fire), 0);
+        PM_T[1] = new igris::timer<int>(igris::make_delegate(pm_fire), 1);
+        pm_put("f=");
+        mgr->plan(*PM_T[0], 0, 3);
+        mgr->plan(*PM_T[1], 0, 5);
+        mgr->exec(7);
+        pm_put(" m=");
+        pm_num((long)mgr->minimal_interval(7));
+        pm_put(mgr->empty() ? " e=1" : " e=0");
+        PM_T[0]->unplan();
+        PM_T[1]->unplan();
+        pm_put(" n=");
+        pm_num((long)mgr->minimal_interval(7));
+        struct stimer_head h;
+        stimer_plan(&h, 5250, LONG_MAX);
+        pm_put(" s=");
+        pm_num(stimer_check(&h, 5000));
+        stimer_plan(&h, 0, 3);
+        pm_num(stimer_check(&h, 3));
+        pm_put(" l=");
+        pm_num(syslock_counter());
+        delete PM_T[0];
+        delete PM_T[1];
+        delete mgr;
+    }
+};
+static premain_t PREMAIN __attribute__((init_priority(101)));
+
+// ---------------------------------------------------------------------------
+// round 3: type widths and constants the model embeds, read out of the compiled code (reset C / consts)
+// ---------------------------------------------------------------------------
+template <class X> static std::string tyname() { return std::to_string(sizeof(X)) + (std::is_signed<X>::value ? "s" : "u"); }
+template <class Spec> static std::string mgr_types()
+{
+    using head = igris::timer_head_basic<Spec>;
+    using mgr = igris::timer_manager_basic<Spec>;
+    using T = decltype(std::declval<head &>().finish());
+    using D = decltype(std::declval<mgr &>().minimal_interval(std::declval<T>()));
+    return "time=" + tyname<T>() + ",diff=" + tyname<D>() + ",never=" + std::to_string((__int128)std::numeric_limits<D>::max() > (__int128)INT64_MAX ? (unsigned long long)std::numeric_limits<D>::max() : (unsigned long long)std::numeric_limits<D>::max());
+}
+static std::string consts_line()
+{
+    struct stimer_head h;
+    std::string s;
+    s += "long=" + tyname<long>();
+    s += " stimer.start=" + tyname<decltype(h.start)>() + " stimer.interval=" + tyname<decltype(h.interval)>() + " stimer.planed=" + tyname<decltype(h.planed)>();
+    s += " stimer_finish=" + tyname<decltype(stimer_finish(&h))>() + " stimer_check=" + tyname<decltype(stimer_check(&h, 0L))>();
+    s += " mgr[" + mgr_types<igris::timer_spec<int64_t>>() + "]";
+    s += " i32[" + mgr_types<spec_i32>() + "]";
+    s += " u32[" + mgr_types<spec_u32>() + "]";
+    s += " default=" + std::string(std::is_same<igris::timer_manager, igris::timer_manager_basic<igris::timer_spec<int64_t>>>::value ? "int64" : "other");
+    s += " delegate=" + std::to_string(sizeof(igris::delegate<void, int>));
+    return s;
+}
+
 static void run_op(const std::vector<std::string> &w, const std::string &, hv::out &o_)
 {
     out o(o_);
@@ -745,6 +824,7 @@ static void run_op(const std::vector<std::string> &w, const std::string &, hv::o
         drop_world();
         D_MODE = w[1] == "D";
         if (D_MODE) { d_reset(); o.result = "ok"; return; }
+        if (w[1] == "C") { o.result = "ok"; return; }
         if (w[1] == "s" || w[1] == "S" || w[1] == "T")
         {
             memset(&ST, 0, sizeof ST);
@@ -783,6 +863,14 @@ static void run_op(const std::vector<std::string> &w, const std::string &, hv::o
     }
     W_.o = &o;
     if (D_MODE) { d_op(w, o); return; }
+    if (op == "consts") { o.result = consts_line(); o.tag("consts"); return; }
+    if (op == "premain")
+    {
+        o.result = std::string(PM_BUF, PM_LEN);
+        if (o.result != "f=0:3,1:5,0:6 m=2 e=0 n=9223372036854775807 s=01 l=0") o.fail("the scenario run before main() did not behave like the same scenario after main()");
+        o.tag("before-main");
+        return;
+    }
     static const std::set<std::string> mgr_ops = {"plan", "plan1", "unplan", "sets", "seti", "replan", "destroy", "dropmgr", "qmin", "q", "exec"};
     if (mgr_ops.count(op) && !W_.t)
     {
@@ -1171,6 +1259,10 @@ static std::string S(i64 v) { return std::to_string(v); }
 // the directed cases every run starts with
 static void gen_directed()
 {
+    // widths / signedness / constants of the compiled code against what the model embeds
+    emit("reset C");
+    emit("consts");
+    emit("premain");
     // the library's own scenario shape: two periodic timers, one stops itself
     emit("reset 2");
     emit("plan 0 0 1000");
@@ -2116,7 +2208,8 @@ static void gen_delegate(hv::rng &r, bool th)
         for (int q = 0; q < len; q++)
         {
             unsigned m = (unsigned)r.below(100);
-            int a = (int)r.below(4), b = (int)r.below(4);
+            if (q < 3) m = (unsigned)r.below(30); // the first operations arm slots
+            int a = q < 3 ? q : (int)r.below(4), b = (int)r.below(4);
             int arg = (int)r.pick(std::vector<i64>{0, 1, -1, 7, 2147483647, -2147483647 - 1, 1000});
             if (m < 30)
             {
@@ -2137,6 +2230,41 @@ static void gen_delegate(hv::rng &r, bool th)
     }
 }
 
+// ---------------------------------------------------------------------------
+// round 3: long inputs - one exec that catches up 28500 periods (a result line of 450 KB; exec is linear in the
+// number of firings), and long histories on ONE manager object (thousands of operations, parameters changing)
+// ---------------------------------------------------------------------------
+static void gen_long(hv::rng &r, bool th)
+{
+    emit("reset 2");
+    emit("plan 0 1000000000000 1");
+    emit("plan 1 1000000000000 2");
+    emit("exec 1000000019000 -");
+    emit("exec 1000000019001 1@*:x5");
+    emit("q 1000000019001");
+    for (int c = 0; c < (th ? 12 : 2); c++)
+    {
+        int n = 6;
+        emit("reset " + S(n));
+        i64 now = 0;
+        std::vector<i64> ivs = {1, 2, 3, 5, 7, 10, 100, 255, 256, 257, 65535, 65536};
+        int len = th ? 4000 : 1500;
+        for (int q = 0; q < len; q++)
+        {
+            unsigned m = (unsigned)r.below(100);
+            int i = (int)r.below(n);
+            if (m < 35) emit("plan " + S(i) + " " + S(now - (i64)r.below(4)) + " " + S(r.pick(ivs)));
+            else if (m < 45) emit("unplan " + S(i));
+            else if (m < 50) emit("qmin " + S(now));
+            else
+            {
+                now += r.pick(std::vector<i64>{0, 1, 1, 2, 3, 7, 50, 255, 256, 257, 1000});
+                emit("exec " + S(now) + " " + gen_rules(r, n, now, std::vector<i64>{1, 2, 3, 5, 7, 10, 100, 256}));
+            }
+        }
+    }
+}
+
 static void gen_extensions(hv::rng &r, bool th)
 {
     gen_wrap_directed();
@@ -2151,6 +2279,7 @@ static void gen_extensions(hv::rng &r, bool th)
     gen_stimer_long(r, th);
     gen_signed(r, th);
     gen_delegate(r, th);
+    gen_long(r, th);
     gen_nested_directed();
     gen_exhaustive3(r, th);
     for (int c = 0; c < (th ? 6000 : 600); c++) gen_nested_case(r);
